@@ -169,12 +169,10 @@ def edfPer (tua : RB) (D : Nat) (others : List EdfTask) (rem : Nat) (wb : Bool) 
 /-- per-offset result of the model -/
 def edfPerModel (tua : RB) (D : Nat) (others : List EdfTask) (rem : Nat) (wb : Bool)
     (limit A : Nat) : Res :=
-  if tua.need (A + 1) < rem then .panic
-  else
-    let B := if wb then edfBlocking others D A else 0
-    finishEDF A rem
-      (search .dedicated limit
-        (fun AF => B + (tua.need (A + 1) - rem) + edfHepWorkload others D A AF))
+  let B := if wb then edfBlocking others D A else 0
+  finishEDF A rem
+    (search .dedicated limit
+      (fun AF => B + (tua.need (A + 1) - rem) + edfHepWorkload others D A AF))
 
 theorem naiveEdf_eq (tua : RB) (D : Nat) (others : List EdfTask) (rem : Nat) (wb : Bool)
     (limit : Nat) : naiveEdf tua D others rem wb limit =
@@ -214,13 +212,12 @@ theorem edfRhs_mono (tua : RB) (D : Nat) (others : List EdfTask) (rem : Nat) (wb
   unfold edfRhs
   exact Nat.add_le_add_left (edfHep_mono others ho D A a b hab) _
 
-/-- the model's per-offset computation is the naive one as soon as the guard holds -/
+/-- the model's per-offset computation is the naive one (since the `fix:` commit for finding
+F9 there is no guard left: `self_interference.saturating_sub(rem_cost)`) -/
 theorem edfPerModel_eq (tua : RB) (D : Nat) (others : List EdfTask) (rem : Nat) (wb : Bool)
-    (limit : Nat) (ho : EdfOthersOK others) (hl : 1 ≤ limit) (A : Nat)
-    (hg : rem ≤ tua.need (A + 1)) :
+    (limit : Nat) (ho : EdfOthersOK others) (hl : 1 ≤ limit) (A : Nat) :
     edfPerModel tua D others rem wb limit A = edfPer tua D others rem wb limit A := by
   unfold edfPerModel edfPer
-  rw [if_neg (by omega)]
   show finishEDF A rem (search .dedicated limit (edfRhs tua D others rem wb A)) = _
   rw [search_dedicated_eq_naive _ (edfRhs_mono tua D others rem wb ho A) limit hl]
   cases naiveSolve (edfRhs tua D others rem wb A) limit <;> rfl
@@ -270,10 +267,9 @@ theorem search_dedicated_ne_panic (w : Nat → Nat) (hw : Mono w) (limit : Nat) 
   exact Nat.zero_le _
 
 theorem edfPerModel_ne_panic (tua : RB) (D : Nat) (others : List EdfTask) (rem : Nat) (wb : Bool)
-    (limit : Nat) (ho : EdfOthersOK others) (A : Nat) (hg : rem ≤ tua.need (A + 1)) :
+    (limit : Nat) (ho : EdfOthersOK others) (A : Nat) :
     edfPerModel tua D others rem wb limit A ≠ .panic := by
   unfold edfPerModel
-  rw [if_neg (by omega)]
   show finishEDF A rem (search .dedicated limit (edfRhs tua D others rem wb A)) ≠ _
   have := search_dedicated_ne_panic _ (edfRhs_mono tua D others rem wb ho A) limit
   revert this
@@ -282,10 +278,10 @@ theorem edfPerModel_ne_panic (tua : RB) (D : Nat) (others : List EdfTask) (rem :
   · intro hc; cases hc
   · exact absurd rfl h
 
-/-- the model never fails a guard when `rem` never exceeds the own demand -/
-theorem edfCore_ne_panic_of_guard (tua : RB) (D : Nat) (others : List EdfTask) (rem : Nat)
-    (wb : Bool) (limit : Nat) (hwf : tua.ArrWF) (hex : tua.Exact) (ho : EdfOthersOK others)
-    (hg : ∀ A, rem ≤ tua.need (A + 1)) :
+/-- the model never fails a guard on well-formed input (no side condition relating `rem` to
+the own demand is needed since the `fix:` commit for finding F9) -/
+theorem edfCore_ne_panic_of_wf (tua : RB) (D : Nat) (others : List EdfTask) (rem : Nat)
+    (wb : Bool) (limit : Nat) (hwf : tua.ArrWF) (hex : tua.Exact) (ho : EdfOthersOK others) :
     edfCore tua D others rem wb limit ≠ .panic := by
   rw [edfCore_eq]
   have hs := search_dedicated_ne_panic _ (busy_mono tua others hwf hex ho) limit
@@ -303,18 +299,7 @@ theorem edfCore_ne_panic_of_guard (tua : RB) (D : Nat) (others : List EdfTask) (
     intro x hx
     rw [List.mem_map] at hx
     obtain ⟨A, _, rfl⟩ := hx
-    exact edfPerModel_ne_panic tua D others rem wb limit ho A (hg A)
-
-/-- `rem` is below every positive own demand -/
-theorem guard_of_step (tua : RB) (rem : Nat) (hwf : tua.ArrWF) (hex : tua.Exact)
-    (hpos : 0 < tua.need 1)
-    (hstep : ∀ A, tua.need A < tua.need (A + 1) → tua.need A + rem < tua.need (A + 1)) :
-    ∀ A, rem ≤ tua.need (A + 1) := by
-  intro A
-  have h0 : tua.need 0 + rem < tua.need 1 := hstep 0 (by rw [RB.need_zero]; exact hpos)
-  rw [RB.need_zero] at h0
-  have := RB.need_mono tua hwf hex 1 (A + 1) (by omega)
-  omega
+    exact edfPerModel_ne_panic tua D others rem wb limit ho A
 
 end PruneEDFLemmas
 
@@ -325,7 +310,8 @@ theorem edfCore_eq_naive (tua : RB) (D : Nat) (others : List EdfTask) (rem : Nat
     (hstep : ∀ A, tua.need A < tua.need (A + 1) → tua.need A + rem < tua.need (A + 1)) :
     edfCore tua D others rem wb limit = naiveEdf tua D others rem wb limit := by
   have hmt := RB.need_mono tua hwf hex
-  have hg := guard_of_step tua rem hwf hex hpos hstep
+  -- `hstep` excluded the `rbf_tua(A+1) - rem` guard, which is gone since the F9 fix
+  have _ := hstep
   rw [naiveEdf_eq, edfCore_eq,
     search_dedicated_eq_naive _ (busy_mono tua others hwf hex ho) limit hl]
   rcases naiveSolve_cases (fun L => sumNeed (others.map (·.rb)) L + tua.need L) limit with
@@ -336,7 +322,7 @@ theorem edfCore_eq_naive (tua : RB) (D : Nat) (others : List EdfTask) (rem : Nat
     rw [hS]
     unfold overOffsets
     have hfun : edfPerModel tua D others rem wb limit = edfPer tua D others rem wb limit :=
-      funext fun A => edfPerModel_eq tua D others rem wb limit ho hl A (hg A)
+      funext fun A => edfPerModel_eq tua D others rem wb limit ho hl A
     rw [hfun]
     apply maxResponseTime_pruned _ L limit S (fun A hA => ((hSm A).1 hA).1)
       (fun A _ => edfPer_cases tua D others rem wb limit A)
@@ -431,52 +417,30 @@ theorem edfFloating_eq_naive (tua : RB) (D : Nat) (others : List EdfTask) (limit
   unfold edfFloating
   exact edfCore_eq_naive tua D others 0 true limit hwf hex ho hl hpos (fun A h => by omega)
 
-namespace PruneEDFLemmas
 
-theorem foldl_combine_panic (rs : List Res) : rs.foldl combineRes .panic = .panic := by
-  induction rs with
-  | nil => rfl
-  | cons x xs ih => simp only [List.foldl_cons, combineRes]; exact ih
+/-- no guard fails on well-formed input (C20).  Until the `fix:` commit for finding F9
+(`self_interference.saturating_sub(rem_cost)`) this needed "the task under analysis releases
+something" (`0 < tua.need 1`) and `hstep` (`rem` below every own step) to exclude the
+`rbf_tua(A+1) - rem` underflow. -/
+theorem edfCore_no_panic' (tua : RB) (D : Nat) (others : List EdfTask) (rem : Nat) (wb : Bool)
+    (limit : Nat) (hwf : tua.ArrWF) (hex : tua.Exact) (ho : EdfOthersOK others) :
+    edfCore tua D others rem wb limit ≠ .panic :=
+  edfCore_ne_panic_of_wf tua D others rem wb limit hwf hex ho
 
-/-- the guard `rbf_tua(A+1) - rem` fails when the task under analysis never releases
-anything, `rem > 0`, and another task contributes a point to the search space -/
-theorem edfCore_panic_of_silent (tua : RB) (D : Nat) (others : List EdfTask) (rem : Nat)
-    (wb : Bool) (limit L : Nat) (hwf : tua.ArrWF) (hex : tua.Exact) (ho : EdfOthersOK others)
-    (hsilent : ∀ x, tua.need x = 0) (hrem : 0 < rem)
-    (hL : search .dedicated limit (fun L => sumNeed (others.map (·.rb)) L + tua.need L) = .ok L)
-    (hpt : ∃ A, A < L ∧ ∃ o ∈ others, ∃ off,
-      o.rb.need off < o.rb.need (off + 1) ∧ A = off + o.D - D) :
-    edfCore tua D others rem wb limit = .panic := by
-  rw [edfCore_eq, hL]
-  simp only [Bool.false_eq_true, if_false]
-  obtain ⟨S, hS, _, hSm⟩ := edfSpace_spec tua D others L hwf hex ho
-  obtain ⟨A, hA, hA'⟩ := hpt
-  have hmem : A ∈ S := (hSm A).2 ⟨hA, Or.inr hA'⟩
-  rw [hS]
-  unfold overOffsets
-  cases S with
-  | nil => cases hmem
-  | cons B S' =>
-    have hB : edfPerModel tua D others rem wb limit B = .panic := by
-      unfold edfPerModel
-      rw [if_pos (by rw [hsilent]; exact hrem)]
-    simp only [List.map_cons, maxResponseTime, hB]
-    exact foldl_combine_panic _
+/-- with `rem = 0` (fully preemptive, floating non-preemptive) no guard can fail at all -/
+theorem edfCore_no_panic_rem0 (tua : RB) (D : Nat) (others : List EdfTask) (wb : Bool)
+    (limit : Nat) (hwf : tua.ArrWF) (hex : tua.Exact) (ho : EdfOthersOK others) :
+    edfCore tua D others 0 wb limit ≠ .panic :=
+  edfCore_ne_panic_of_wf tua D others 0 wb limit hwf hex ho
 
-end PruneEDFLemmas
-
-/-- the statement "`edfCore` never panics under `ArrWF`, `Exact`, `EdfOthersOK`, `hstep`" is FALSE: a task under analysis that never releases
-anything, `rem = 2`, and one periodic interfering task satisfy all its hypotheses, but the
-guard `rbf_tua(A+1) - rem` fails at the offset contributed by the other task -/
-theorem edfCore_no_panic_counterexample :
-    (RB.rbf .never (.scalar 3)).ArrWF ∧ (RB.rbf .never (.scalar 3)).Exact ∧
-    EdfOthersOK [{rb := .rbf (.periodic 4) (.scalar 1), D := 5, seg := 1}] ∧
-    (∀ A, (RB.rbf .never (.scalar 3)).need A < (RB.rbf .never (.scalar 3)).need (A + 1) →
-      (RB.rbf .never (.scalar 3)).need A + 2 < (RB.rbf .never (.scalar 3)).need (A + 1)) ∧
+/-- the witness of the former finding F9: a task under analysis that never releases anything,
+`rem = 2`, and one periodic interfering task that contributes the offset `0` to the search
+space.  Before the `fix:` commit (`self_interference.saturating_sub(rem_cost)`) the guard
+`rbf_tua(A+1) - rem` failed there and the model returned `.panic`; now the analysis is total on
+this input and returns `Ok(3)` (`AF = 1`, the one job of the other task, plus `rem`). -/
+theorem edfCore_never_arriving_tua_total :
     edfCore (.rbf .never (.scalar 3)) 5
-      [{rb := .rbf (.periodic 4) (.scalar 1), D := 5, seg := 1}] 2 true 50 = .panic := by
-  have hsil : ∀ x, (RB.rbf .never (.scalar 3)).need x = 0 := by
-    intro x; simp [RB.need, Arr.N, Cost.ofJobs]
+      [{rb := .rbf (.periodic 4) (.scalar 1), D := 5, seg := 1}] 2 true 50 = .ok 3 := by
   have hwf : (RB.rbf .never (.scalar 3)).ArrWF := by simp [RB.ArrWF, Arr.WF]
   have hex : (RB.rbf .never (.scalar 3)).Exact := by
     simp only [RB.Exact, Arr.Exact, true_and]
@@ -488,27 +452,25 @@ theorem edfCore_no_panic_counterexample :
     refine ⟨by simp [RB.ArrWF, Arr.WF], ?_⟩
     simp only [RB.Exact, Arr.Exact, true_and]
     exact Cost.scalar_strictPos 1 (by omega)
-  refine ⟨hwf, hex, ho, ?_, ?_⟩
-  · intro A h
-    rw [hsil, hsil] at h
-    omega
-  · apply edfCore_panic_of_silent _ 5 _ 2 true 50 1 hwf hex ho hsil (by omega) (by decide)
-    exact ⟨0, by omega, _, List.mem_singleton.2 rfl, 0, by decide, rfl⟩
-
-/-- no guard fails on well-formed input when the task under analysis releases something
-(C20); without `hpos` the statement is false, see `edfCore_no_panic_counterexample` (finding F9) -/
-theorem edfCore_no_panic' (tua : RB) (D : Nat) (others : List EdfTask) (rem : Nat) (wb : Bool)
-    (limit : Nat) (hwf : tua.ArrWF) (hex : tua.Exact) (ho : EdfOthersOK others)
-    (hpos : 0 < tua.need 1)
-    (hstep : ∀ A, tua.need A < tua.need (A + 1) → tua.need A + rem < tua.need (A + 1)) :
-    edfCore tua D others rem wb limit ≠ .panic :=
-  edfCore_ne_panic_of_guard tua D others rem wb limit hwf hex ho
-    (guard_of_step tua rem hwf hex hpos hstep)
-
-/-- with `rem = 0` (fully preemptive, floating non-preemptive) no guard can fail at all -/
-theorem edfCore_no_panic_rem0 (tua : RB) (D : Nat) (others : List EdfTask) (wb : Bool)
-    (limit : Nat) (hwf : tua.ArrWF) (hex : tua.Exact) (ho : EdfOthersOK others) :
-    edfCore tua D others 0 wb limit ≠ .panic :=
-  edfCore_ne_panic_of_guard tua D others 0 wb limit hwf hex ho (fun _ => Nat.zero_le _)
+  have hL : search .dedicated 50 (fun L =>
+      sumNeed (([{rb := .rbf (.periodic 4) (.scalar 1), D := 5, seg := 1}] : List EdfTask).map (·.rb)) L +
+        (RB.rbf .never (.scalar 3)).need L) = .ok 1 := by decide
+  rw [PruneEDFLemmas.edfCore_eq, hL]
+  simp only [Bool.false_eq_true, if_false]
+  obtain ⟨S, hS, hSp, hSm⟩ := edfSpace_spec _ 5 _ 1 hwf hex ho
+  have h0 : 0 ∈ S :=
+    (hSm 0).2 ⟨by omega, Or.inr ⟨_, List.mem_singleton.2 rfl, 0, by decide, rfl⟩⟩
+  have hall : ∀ A ∈ S, A = 0 := fun A hA => by have := ((hSm A).1 hA).1; omega
+  have hSeq : S = [0] := by
+    match S, hSp, h0, hall with
+    | [], _, h0, _ => cases h0
+    | [a], _, _, hall => rw [hall a (by simp)]
+    | a :: b :: t, hSp, _, hall =>
+      have h1 := hall a (by simp)
+      have h2 := hall b (by simp)
+      have h3 : a < b := (List.pairwise_cons.1 hSp).1 b (by simp)
+      omega
+  rw [hS, hSeq]
+  decide
 
 end RTA
